@@ -1,5 +1,5 @@
 // C17: conv2d with stride / padding / dilation given per axis (pairs), bias on/off
-//   nn_conv2d_list <dtype f|d> <input> <weight> <hasbias> [<bias>] <sh> <sw> <ph> <pw> <dh> <dw> <groups>
+//   nn_conv2d_list <dtype f> <input> <weight> <hasbias> [<bias>] <sh> <sw> <ph> <pw> <dh> <dw> <groups>
 #include "c16_common.hpp"
 #include "nmtools/array/view/conv2d.hpp"
 
@@ -7,7 +7,7 @@ namespace view = nmtools::view;
 
 VH_OP(nn_conv2d_list)
 {
-    vh::with_fdtype(in, out, [&](auto t) {
+    vh::with_f(in, out, [&](auto t) {
         using T = decltype(t);
         auto xo = vh::read_operand(in);
         auto wo = vh::read_operand(in);
